@@ -33,7 +33,7 @@ pub fn info() -> PropInfo {
         id: "C09",
         run,
         replay,
-        rule: "cases = histories of builder calls: BytesStart::new + push_attribute/extend_attributes/with_attributes/set_name/clear_attributes written as Start or Empty, BytesEnd::new, BytesText::new, BytesCData::escaped (all pieces), BytesDecl::new, BytesPI::new, comments, DOCTYPE, Writer::create_element(..).with_attribute(s)..write_{text,cdata,pi}_content/write_empty/write_inner_content; payload strings from a markup-heavy generator. Reading the written bytes must give the constructed sequence after coalescing adjacent text events/CDATA pieces and dropping empty text; keys byte-equal, attribute values and text unescape to the original strings, CDATA concatenates to the original, declaration fields read back; the async writer (through a sink that accepts partial writes and returns Pending) produces the same bytes. Non-trivial = at least one payload contains a special character and the history contains an in-place edit or an element-builder call. The synchronous writer is also run through a sink that accepts partial (plain and vectored) writes and answers some calls with ErrorKind::Interrupted: same bytes as into a Vec. Payloads, names and builder-call lists occasionally long (16..300 characters, 20..45 calls). In 40% of the cases the three writers are ALSO run with indentation (space / tab x sizes 0,1,2,4,9,33,65,130) and with ElementWriter::new_line() in front of / between / after the attribute groups and explicit write_indent() / write_indent_async() calls between items: no panic, and sync, partial-sink sync and async writers agree byte for byte (what indentation may insert is C19's subject).",
+        rule: "cases = histories of builder calls: BytesStart::new + push_attribute/extend_attributes/with_attributes/set_name/clear_attributes written as Start or Empty, BytesEnd::new, BytesText::new, BytesCData::escaped (all pieces), BytesDecl::new, BytesPI::new, comments, DOCTYPE, Writer::create_element(..).with_attribute(s)..write_{text,cdata,pi}_content/write_empty/write_inner_content; payload strings from a markup-heavy generator. Reading the written bytes must give the constructed sequence after coalescing adjacent text events/CDATA pieces and dropping empty text; keys byte-equal, attribute values and text unescape to the original strings, CDATA concatenates to the original, declaration fields read back; the async writer (through a sink that accepts partial writes and returns Pending) produces the same bytes. Non-trivial = at least one payload contains a special character and the history contains an in-place edit or an element-builder call. The synchronous writer is also run through a sink that accepts partial (plain and vectored) writes and answers some calls with ErrorKind::Interrupted: same bytes as into a Vec. Payloads, names and builder-call lists occasionally long (16..300 characters, 20..45 calls). In 40% of the cases the three writers are ALSO run with indentation (space / tab x sizes 0,1,2,4,9,33,65,130) and with ElementWriter::new_line() in front of / between / after the attribute groups and explicit write_indent() / write_indent_async() calls between items: no panic, and sync, partial-sink sync and async writers agree byte for byte (what indentation may insert is C19's subject). A quarter of the cases also write Writer::write_bom() first: same bytes after the mark, same events read back. Nested content goes through write_inner_content on the sync side and write_inner_content_async on the async side.",
         assumptions: &["names are XML-name-like (no blanks, no '>'), comment/PI/DOCTYPE content is free of its own terminator (documented preconditions)", "declarations name UTF-8 (or no encoding): the written bytes are UTF-8"],
         level: "exploration",
         variants: &["full", "min"],
@@ -48,8 +48,7 @@ fn write_sync<W: std::io::Write>(w: &mut Writer<W>, specs: &[EvSpec]) -> std::io
         }
         match s {
             EvSpec::Element(name, attrs, content) => {
-                // (the async side writes an element with inner content as plain Start / End events: no new_line there)
-                let nl = if matches!(content, Content::Inner(_)) { 0 } else { NL_MASK.with(|m| m.get()) };
+                let nl = NL_MASK.with(|m| m.get());
                 let mut ew = w.create_element(name.as_str());
                 if nl & 1 != 0 {
                     ew = ew.new_line();
@@ -96,7 +95,15 @@ fn write_sync<W: std::io::Write>(w: &mut Writer<W>, specs: &[EvSpec]) -> std::io
 }
 
 /// the async writer: plain events through write_event_async, element builder through its
-/// async methods (inner content is flattened into start / inner / end events)
+/// async methods (write_inner_content_async for nested content)
+/// error type for write_inner_content_async (it must be convertible from the library's error)
+struct AErr(String);
+impl From<quick_xml::Error> for AErr {
+    fn from(e: quick_xml::Error) -> Self {
+        AErr(e.to_string())
+    }
+}
+
 fn write_async(w: &mut Writer<PartialSink>, specs: &[EvSpec]) -> Result<(), String> {
     for (idx, s) in specs.iter().enumerate() {
         if NL_MASK.with(|m| m.get()) & 8 != 0 && idx % 3 == 1 {
@@ -104,8 +111,7 @@ fn write_async(w: &mut Writer<PartialSink>, specs: &[EvSpec]) -> Result<(), Stri
         }
         match s {
             EvSpec::Element(name, attrs, content) => {
-                // (the async side writes an element with inner content as plain Start / End events: no new_line there)
-                let nl = if matches!(content, Content::Inner(_)) { 0 } else { NL_MASK.with(|m| m.get()) };
+                let nl = NL_MASK.with(|m| m.get());
                 let mk = |w| {
                     let mut ew = Writer::create_element(w, name.as_str());
                     if nl & 1 != 0 {
@@ -140,10 +146,13 @@ fn write_async(w: &mut Writer<PartialSink>, specs: &[EvSpec]) -> Result<(), Stri
                         block_on(mk(w).write_empty_async()).map_err(|e| e.to_string())?;
                     }
                     Content::Inner(inner) => {
-                        let start = build_start(name, &[StartOp::Extend(attrs.clone())]);
-                        block_on(w.write_event_async(Event::Start(start.borrow()))).map_err(|e| e.to_string())?;
-                        write_async(w, inner)?;
-                        block_on(w.write_event_async(Event::End(start.to_end()))).map_err(|e| e.to_string())?;
+                        // the async twin of write_inner_content; the closure writes the inner items through
+                        // this same function (its own block_on calls nest inside the outer one)
+                        block_on(mk(w).write_inner_content_async(|w2| async move {
+                            write_async(&mut *w2, inner).map_err(AErr)?;
+                            Ok::<_, AErr>(w2)
+                        }))
+                        .map_err(|e| e.0)?;
                     }
                 }
             }
@@ -255,6 +264,27 @@ pub fn check(c: &Case) -> Verdict {
         let k = got.iter().zip(want.iter()).position(|(a, b)| a != b).unwrap_or(got.len().min(want.len()));
         return Verdict::fail(format!("item {}: constructed {:?}, read back {:?} | written: {:?}", k, want.get(k), got.get(k), B::show(&bytes)));
     }
+    // Writer::write_bom() in front: the same bytes after the three-byte mark, and the reader gives the
+    // same events (the mark is removed, documented)
+    let with_bom = c.sink.1 % 4 == 1;
+    if with_bom {
+        let mut wb = Writer::new(Vec::new());
+        if let Err(e) = wb.write_bom() {
+            return Verdict::fail(format!("write_bom failed: {}", e));
+        }
+        if let Err(e) = write_sync(&mut wb, &c.events) {
+            return Verdict::fail(format!("writer failed after write_bom: {}", e));
+        }
+        let bb = wb.into_inner();
+        if !(bb.starts_with(&[0xEF, 0xBB, 0xBF]) && bb[3..] == bytes[..]) {
+            return Verdict::fail(format!("after write_bom() the writer produced {:?}, without it {:?}", B::show(&bb), B::show(&bytes)));
+        }
+        match read_back(&bb) {
+            Ok(g) if coalesce(g.clone()) == want => {}
+            Ok(g) => return Verdict::fail(format!("with a byte-order mark written first the document reads back as {:?}, constructed {:?} | written: {:?}", coalesce(g), want, B::show(&bb))),
+            Err(m) => return Verdict::fail(format!("{} | written (with byte-order mark): {:?}", m, B::show(&bb))),
+        }
+    }
     // the synchronous writer through a sink that accepts partial (plain and vectored) writes and
     // interrupts some calls must produce the same bytes as into a Vec
     let mut pw = Writer::new(crate::sources::PartialSyncSink::new(c.sink.0 as usize, c.sink.1));
@@ -316,6 +346,9 @@ pub fn check(c: &Case) -> Verdict {
     }
     if c.events.iter().any(|e| matches!(e, EvSpec::Element(..))) {
         v.classes.push("element-builder");
+    }
+    if with_bom {
+        v.classes.push("also-with-write_bom-in-front");
     }
     if indented {
         v.classes.push("also-with-indentation-sync-vs-async");
